@@ -271,6 +271,20 @@ pub fn run(ctx: &Ctx) -> i32 {
     let k = ctx.tier.pick(3, 4);
     let inputs = gen(k, true);
     let mut acc = par_items(&inputs, check);
+    // every kind of count (smallest, zero-padded, powers of two, largest, one too large) for each
+    // option that takes one, in every place an option may stand
+    {
+        let mut counted: Vec<String> = vec![];
+        for opt in ["-threads", "-maxdepth", "-mindepth"] {
+            for n in ["0", "00", "1", "01", "007", "2", "10", "255", "256", "65535", "65536", "2147483648", "4294967295", "4294967296", "99999999999"] {
+                for template in ["{o} -name a -print", "-name a {o} -print", "-name a -print {o}", "{o}", "-depth {o} -name a", "{o} -depth", "( -name a {o} ) -print", "! {o}", "-name a -o {o}", "-name a , {o}", "{o} {o}", "-threads 9 {o} -print0", "{o} -threads 9"] {
+                    counted.push(template.replace("{o}", &format!("{opt} {n}")));
+                }
+            }
+        }
+        acc.count("counted_option_inputs", counted.len() as u64);
+        acc = acc.merge(par_items(&counted, check));
+    }
     // an option node placed in a tree through the public types has no meaning inside an
     // expression: compile refuses it (it must not silently become a constant, which would lose
     // the option)
